@@ -197,4 +197,107 @@ def bridgeURL (apiV1Path p : Path) : Except Err Path :=
   let u := join2 apiV1Path p
   if !hasPrefix u apiV1Path then .error .scope else .ok u
 
+/-! ### `utils.DirStructure` as a stateful object: the tree of registered children
+
+A `DirStructure` value is a node: `Path`, `Perm`, `Parent`, `Children` (a map from the *name given to
+`ChildDir`* to the child).  The model keeps all nodes of one tree in a list; a handle is an index,
+node 0 is the structure made by `NewDirStructure`.  `ChildDir` is the only call that changes the
+tree; the `Ensure*` calls read it (`ensure` follows registered children element by element). -/
+
+structure DNode where
+  parent : Option Nat   -- `Parent` (none: the top-level structure)
+  key : Path            -- the key under which `Parent.Children` holds this node (= `Dir`)
+  path : Path           -- `Path`
+  perm : Nat            -- `Perm`
+  deriving Repr, DecidableEq
+
+abbrev DTree := List DNode
+
+/-- `NewDirStructure(path, perm)`. -/
+def newDirStructure (path : Path) (perm : Nat) : DTree := [{ parent := none, key := [], path := path, perm := perm }]
+
+def DTree.pathOf (t : DTree) (h : Nat) : Path := match t[h]? with | some n => n.path | none => []
+def DTree.permOf (t : DTree) (h : Nat) : Nat := match t[h]? with | some n => n.perm | none => 0
+
+/-- `ds.Children[name]` for the node with handle `h`: the first node registered with this parent and key. -/
+def findChildFrom (h : Nat) (name : Path) : Nat → List DNode → Option Nat
+  | _, [] => none
+  | i, n :: rest => if n.parent = some h ∧ n.key = name then some i else findChildFrom h name (i + 1) rest
+
+def findChild (t : DTree) (h : Nat) (name : Path) : Option Nat := findChildFrom h name 0 t
+
+/-- `ds.ChildDir(dirName, perm)` on handle `h`: the new tree and the handle of the child.
+    An existing child (same key) gets the new permissions; a new child has
+    `Path = filepath.Join(ds.Path, dirName)` and is registered under `dirName` as given. -/
+def childDir (t : DTree) (h : Nat) (dirName : Path) (perm : Nat) : DTree × Nat :=
+  match findChild t h dirName with
+  | some c => (t.modify c (fun n => { n with perm := perm }), c)
+  | none => (t ++ [{ parent := some h, key := dirName, path := join2 (t.pathOf h) dirName, perm := perm }], t.length)
+
+/-- The remaining directories `ensure` creates once no registered child matches: all with the
+    permissions of the structure where the registered tree ended. -/
+def ensureChainP (perm : Nat) (cur : Path) : List Path → List (Path × Nat)
+  | [] => []
+  | d :: ds => let nxt := join2 cur d; (nxt, perm) :: ensureChainP perm nxt ds
+
+/-- `ds.ensure(pathDirs)` on handle `h`: the calls `EnsureDirectory(path, perm)` in order. -/
+def ensureFrom (t : DTree) : Nat → List Path → List (Path × Nat)
+  | h, [] => [(t.pathOf h, t.permOf h)]
+  | h, d :: ds =>
+    (t.pathOf h, t.permOf h) ::
+      match findChild t h d with
+      | none => ensureChainP (t.permOf h) (t.pathOf h) (d :: ds)
+      | some c => ensureFrom t c ds
+
+/-- "always start at the top": follow `Parent` until there is none (fuel = number of nodes). -/
+def topOf (t : DTree) : Nat → Nat → Nat
+  | 0, h => h
+  | f + 1, h => match t[h]? with
+    | some n => (match n.parent with | some p => topOf t f p | none => h)
+    | none => h
+
+/-- `EnsureAbsPath(dirPath)` called on any node of the tree. -/
+def ensureAbsPathT (t : DTree) (h : Nat) (dirPath : Path) : Except Err (List (Path × Nat)) :=
+  let top := topOf t t.length h
+  let root := t.pathOf top
+  let dirPath := clean dirPath
+  if dirPath = root then .ok (ensureFrom t top [])
+  else
+    let slashed := if hasSuffix root [47] then root else root ++ [47]
+    if !hasPrefix dirPath slashed then .error .outside
+    else match relOf root dirPath with
+      | none => .error .relErr
+      | some rel => .ok (ensureFrom t top (splitSep rel))
+
+/-- `Ensure()`, `EnsureRelPath(p)`, `EnsureRelDir(names...)` on handle `h`. -/
+def ensureT (t : DTree) (h : Nat) : Except Err (List (Path × Nat)) := ensureAbsPathT t h (t.pathOf h)
+def ensureRelPathT (t : DTree) (h : Nat) (rel : Path) : Except Err (List (Path × Nat)) :=
+  ensureAbsPathT t h (join2 (t.pathOf h) rel)
+def ensureRelDirT (t : DTree) (h : Nat) (names : List Path) : Except Err (List (Path × Nat)) :=
+  ensureAbsPathT t h (joinList (t.pathOf h :: names))
+
+/-- The calls a caller can make on a tree (handles and names are arbitrary). -/
+inductive DCall where
+  | childDir (h : Nat) (name : Path) (perm : Nat)
+  | ensure (h : Nat)
+  | ensureAbs (h : Nat) (p : Path)
+  | ensureRel (h : Nat) (rel : Path)
+  | ensureRelDir (h : Nat) (names : List Path)
+
+/-- One call: the tree afterwards and the directories handed to `EnsureDirectory` (none for `ChildDir`,
+    none if the call is refused).  A handle that does not exist is not a call. -/
+def dcall (t : DTree) : DCall → DTree × Except Err (List (Path × Nat))
+  | .childDir h name perm => if h < t.length then ((childDir t h name perm).1, .ok []) else (t, .ok [])
+  | .ensure h => (t, if h < t.length then ensureT t h else .ok [])
+  | .ensureAbs h p => (t, if h < t.length then ensureAbsPathT t h p else .ok [])
+  | .ensureRel h rel => (t, if h < t.length then ensureRelPathT t h rel else .ok [])
+  | .ensureRelDir h names => (t, if h < t.length then ensureRelDirT t h names else .ok [])
+
+/-- A history of calls: everything handed to `EnsureDirectory` along the way. -/
+def dhistory (t : DTree) : List DCall → List (Path × Nat)
+  | [] => []
+  | c :: cs =>
+    let (t', r) := dcall t c
+    (match r with | .ok ds => ds | .error _ => []) ++ dhistory t' cs
+
 end PB.Paths
